@@ -161,6 +161,18 @@ func checkC09(e *RunEnv) *CheckResult {
 				}
 			}
 		}
+		// the same bytes under several names (one blob id, three staged entries): restoring one name must not touch,
+		// and must not be short-cut by, the others (every other generated content is derived from its path)
+		tw := append(append([]Step{}, seedS0()...), Write("p1", "same bytes\n"), Write("p2", "same bytes\n"), Write("d/p3", "same bytes\n"), Write("q", v1("q")), Run("add", "p1", "p2", "d", "q"), Run("commit", "-m", "c1"))
+		if tb := x.BuildState(tw); tb != nil {
+			edits := [][]Step{{Write("p1", "edit 1\n"), Write("p2", "edit 2\n"), Delete("d/p3")}, {Delete("p1"), Write("p2", v1("q")), Write("d/p3", "edit 3\n")}, {Write("p1", "edit 1\n"), Run("add", "p1"), Run("rm", "p2"), Write("d/p3", "same bytes, longer\n"), Run("add", "d")}}
+			for _, ed := range edits {
+				for _, as := range [][]string{{"p1"}, {"p2"}, {"d"}, {"p1", "d/p3"}, {"."}} {
+					cs = append(cs, Case{Base: tb, BaseName: "twin-content", BaseSeed: tw, Steps: append(append([]Step{}, ed...), Run(append([]string{"restore"}, as...)...).WithTags("twin-content"))},
+						Case{Base: tb, BaseName: "twin-content", BaseSeed: tw, Steps: append(append([]Step{}, ed...), Run(append([]string{"restore", "--staged"}, as...)...).WithTags("twin-content"))})
+				}
+			}
+		}
 		sweep = x.RunCases(cs)
 	}, func(x *Explorer, cov map[string]interface{}) {
 		cov["name_sweep_cases"] = sweep
